@@ -230,7 +230,10 @@ def _view(r):
 
 
 def view_differs(v):
-    return _view(v["with"]) != _view(v["without"])
+    """what the store shows with the index differs from the index-free open: error class, root, per-address lookups and
+    reads, and (when both opens succeed) the chunk count"""
+    w, wo = v["with"], v["without"]
+    return _view(w) != _view(wo) or (w["err"] == 0 and wo["err"] == 0 and w["count"] != wo["count"])
 
 
 def _image(o, v):
